@@ -2,6 +2,7 @@
 // Unit STAGE: every `impl Process` of the pipeline against the protocol contract (P1)-(P4) of DESIGN §4.3
 use vstd::prelude::*;
 use std::rc::Rc;
+use vstd::std_specs::iter::IteratorSpec;
 use std::collections::HashMap;
 use std::collections::HashSet;
 
@@ -10,11 +11,18 @@ verus! {
 pub mod jt {
 use vstd::prelude::*;
 use std::rc::Rc;
+use vstd::std_specs::iter::IteratorSpec;
 //@@ include prelude/indexmap.rs
 //@@ include prelude/json_types.rs
 //@@ include prelude/clone_specs.rs
 }
 use jt::*;
+pub mod cl {
+use vstd::prelude::*;
+use std::rc::Rc;
+use super::jt::*;
+//@@ include prelude/clone_axioms.rs
+}
 //@@ include lemmas/ctx_spec.rs
 //@@ include prelude/ctx_opaque.rs
 //@@ include prelude/process.rs
@@ -46,11 +54,12 @@ impl Context {
 pub mod rows {
 use vstd::prelude::*;
 use std::rc::Rc;
+use vstd::std_specs::iter::IteratorSpec;
 use super::*;
 //@@ include lemmas/rows.rs
 }
 use rows::*;
-broadcast use {rows::group_rows, prefix_lemmas::group_prefix, jt::group_json_eq, vstd::std_specs::hash::group_hash_axioms, keymodel::axiom_context_key_model};
+broadcast use {rows::group_rows, prefix_lemmas::group_prefix, jt::group_json_eq, jt::group_json_names, cl::group_clone_is_copy, jt::axiom_default_vec, jt::axiom_im_distinct, vstd::std_specs::hash::group_hash_axioms, keymodel::axiom_context_key_model};
 
 // ------------------------------------------------------------------ src/limits.rs
 //@@ item src/limits.rs :: struct Limiter
@@ -306,6 +315,146 @@ impl Process for Uniquness {
             proof { assert(old(self).knwon_lines@.insert(ctx_key(context)) =~= old(self).knwon_lines@); }
 //@@ endfn
 }
+}
+
+// ------------------------------------------------------------------ src/merger.rs
+pub mod merger {
+use vstd::prelude::*;
+use super::*;
+pub type Result<T> = ProcessResult<T>;
+broadcast use {super::rows::group_rows, super::prefix_lemmas::group_prefix, super::jt::group_json_names, super::cl::group_clone_is_copy};
+//@@ item src/merger.rs :: struct Merger
+//@@ enditem
+
+impl Merger {
+//@@ fn merger.create_process = src/merger.rs :: impl Merger :: fn create_process
+//@@ safety C03 C09
+//@@ ret r
+//@@ header
+    requires next.inv(), next.eager(),
+    ensures r.inv(), r.log() == next.log(), !r.must_break(),
+        // --merge: exactly one array holding every row that reaches it, built, in order — also for no rows at all
+        forall|rows: Seq<Context>| #[trigger] r.fut(rows) == next.fut(seq![merged_row(Seq::empty(), rows)]), // @obl STAGE.merger.ctor : C09 C03
+//@@ endfn
+}
+
+impl Process for Merger {
+    closed spec fn inv(&self) -> bool { self.next.inv() && self.next.eager() }
+    closed spec fn log(&self) -> Seq<u8> { self.next.log() }
+    closed spec fn fut(&self, rows: Seq<Context>) -> Seq<u8> { self.next.fut(seq![merged_row(self.data@, rows)]) }
+    closed spec fn must_break(&self) -> bool { false }
+    closed spec fn eager(&self) -> bool { false }
+
+//@@ fn merger.complete = src/merger.rs :: impl Process for Merger :: fn complete
+//@@ safety C09 C03 C16
+//@@ loop 1 iter it
+            invariant
+                data@ =~= self.data@.subrange(0, it.index@), 0 <= it.index@ <= self.data@.len(),
+                it.seq().len() == self.data@.len(),
+                forall|j: int| 0 <= j < it.seq().len() ==> *(#[trigger] it.seq()[j]) == self.data@[j],
+//@@ before "let value = data.into();"
+        proof {
+            assert(data@ =~= self.data@);
+            assert(self.data@.add(builds(Seq::empty())) =~= self.data@);
+        }
+//@@ endfn
+//@@ fn merger.process = src/merger.rs :: impl Process for Merger :: fn process
+//@@ safety C09 C03
+//@@ before "Ok(ProcessDesision::Continue)"
+        proof {
+            assert forall|rows: Seq<Context>| merged_row(self.data@, rows) == merged_row(old(self).data@, seq![context].add(rows)) by {
+                assert(self.data@.add(builds(rows)) =~= old(self).data@.add(builds(seq![context].add(rows))));
+            }
+        }
+//@@ endfn
+//@@ fn merger.start = src/merger.rs :: impl Process for Merger :: fn start
+//@@ safety C09 C03
+//@@ endfn
+}
+}
+
+// ------------------------------------------------------------------ src/grouper.rs
+//@@ item src/grouper.rs :: struct GrouperProcess
+//@@ enditem
+//@@ item src/grouper.rs :: struct Grouper
+//@@ enditem
+
+
+impl Grouper {
+    pub closed spec fn g(&self) -> Rc<dyn Get> { self.group_by }
+//@@ fn grouper.create_process = src/grouper.rs :: impl Grouper :: fn create_process
+//@@ safety C03 C09
+//@@ ret r
+//@@ header
+    requires next.inv(), next.eager(),
+    ensures r.inv(), r.log() == next.log(), !r.must_break(),
+        // --group-by: exactly one object; keys in first-seen order, each array in arrival order, non-string keys dropped
+        forall|rows: Seq<Context>| #[trigger] r.fut(rows) == next.fut(seq![grouped_row(self.g(), Seq::empty(), rows)]), // @obl STAGE.grouper.ctor : C09 C03
+//@@ body-start
+        proof { assert forall|e: Seq<(String, Vec<JsonValue>)>| e.len() == 0 implies #[trigger] groups_view(e) =~= Seq::<(String, Seq<JsonValue>)>::empty() by {} }
+//@@ endfn
+}
+
+impl GrouperProcess {
+    pub closed spec fn groups(&self) -> Seq<(String, Seq<JsonValue>)> { groups_view(self.data.entries()) }
+//@@ fn grouper.name = src/grouper.rs :: impl GrouperProcess :: fn name
+//@@ safety C09
+//@@ ret r
+//@@ header
+        ensures r == group_key(self.group_by, *context), // @obl STAGE.grouper.name : C09
+//@@ endfn
+}
+
+impl Process for GrouperProcess {
+    closed spec fn inv(&self) -> bool { self.next.inv() && self.next.eager() }
+    closed spec fn log(&self) -> Seq<u8> { self.next.log() }
+    closed spec fn fut(&self, rows: Seq<Context>) -> Seq<u8> { self.next.fut(seq![grouped_row(self.group_by, self.groups(), rows)]) }
+    closed spec fn must_break(&self) -> bool { false }
+    closed spec fn eager(&self) -> bool { false }
+
+//@@ fn grouper.complete = src/grouper.rs :: impl Process for GrouperProcess :: fn complete
+//@@ safety C09 C03 C16
+//@@ loop 1 iter it
+            invariant
+                0 <= it.index@ <= self.data.entries().len(), it.seq().len() == self.data.entries().len(),
+                forall|j: int| 0 <= j < it.seq().len() ==> *(#[trigger] it.seq()[j]) == self.data.entries()[j],
+                data.entries() =~= group_members(self.groups()).subrange(0, it.index@),
+//@@ before "let value = value.clone().into();"
+            proof {
+                let e = self.data.entries();
+                assert(self.data.distinct());
+                // the key of the current entry differs from every key copied so far
+                assert(!im_has(data.entries(), *key)) by {
+                    if im_has(data.entries(), *key) {
+                        let j = im_idx(data.entries(), *key);
+                        assert(data.entries()[j].0 == e[j].0);
+                        assert(e[j].0 != e[it.index@].0);
+                    }
+                }
+            }
+//@@ before "let value = data.into();"
+        proof {
+            assert(data.entries() =~= group_members(self.groups()));
+            assert(group_all(self.group_by, self.groups(), Seq::empty()) == self.groups());
+        }
+//@@ endfn
+//@@ fn grouper.process = src/grouper.rs :: impl Process for GrouperProcess :: fn process
+//@@ safety C09 C03
+//@@ before "let value = context.build();"
+            let ghost k0 = key;
+            let ghost e0 = self.data.entries();
+            proof { assert(self.data.distinct()); }
+//@@ after "self.data.entry(key).or_default().push(value);"
+            proof {
+                let e2 = self.data.entries();
+                let nv = if im_has(e0, k0) { e2[im_idx(e0, k0)].1 } else { e2.last().1 };
+                lemma_group_insert(e0, e2, k0, nv, value);
+            }
+//@@ endfn
+//@@ fn grouper.start = src/grouper.rs :: impl Process for GrouperProcess :: fn start
+//@@ safety C09 C03
+//@@ rewrite underscore_param
+//@@ endfn
 }
 
 } // verus!
